@@ -436,13 +436,14 @@ def main():
     # ---- C16: order of the steps of process_welcome / accept_welcome / decline_welcome ----------
     # codes: 0 validate_welcome_event, 1 find_processed_welcome_by_event_id (dedup), 2 preview_welcome,
     # 3 save_group, 4 replace_group_relays, 5 the rumor-id check (MissingRumorEventId), 6 save_processed_welcome,
-    # 7 save_welcome, 8 into_group, 9 get_group
+    # 7 save_welcome, 8 into_group, 9 get_group, 10 find_welcome_by_event_id, 11 get_welcome
     wl_src = strip_comments(non_test(read("crates/mdk-core/src/welcomes.rs")))
     def step_order(fn, fact):
         body = fn_body(wl_src, fn, fact)
         pats = [(0, r"validate_welcome_event\s*\("), (1, r"find_processed_welcome_by_event_id\s*\("), (2, r"preview_welcome\s*\("),
                 (3, r"\.save_group\s*\("), (4, r"\.replace_group_relays\s*\("), (5, r"MissingRumorEventId"),
-                (6, r"\.save_processed_welcome\s*\("), (7, r"\.save_welcome\s*\("), (8, r"\.into_group\s*\("), (9, r"\.get_group\s*\(")]
+                (6, r"\.save_processed_welcome\s*\("), (7, r"\.save_welcome\s*\("), (8, r"\.into_group\s*\("), (9, r"\.get_group\s*\("),
+                (10, r"\.find_welcome_by_event_id\s*\("), (11, r"\.get_welcome\s*\(")]
         found = []
         for code, pat in pats:
             for m in re.finditer(pat, body):
@@ -456,6 +457,14 @@ def main():
     psw = fn_body(wl_src, "parse_serialized_welcome", "fn:parse_serialized_welcome")
     boolean("welcomeReplacesOldGroup", bool(re.search(r"\.replace_old_group\s*\(\s*\)", psw)), "mdk-core welcomes.rs parse_serialized_welcome builds the StagedWelcome with .replace_old_group()")
     pw_body = fn_body(wl_src, "process_welcome", "fn:process_welcome")
+    pos_dedup = pw_body.find("find_welcome_by_event_id(&rumor_event_id")
+    pos_preview = pw_body.find("preview_welcome(")
+    boolean("welcomeProcessDedupsByRumorId", 0 <= pos_dedup < pos_preview, "mdk-core welcomes.rs process_welcome returns the stored welcome for a rumor id it already stored, before preview and before any group write")
+    def refuses_accepted(fn):
+        body = fn_body(wl_src, fn, "fn:" + fn)
+        a, b = body.find("WelcomeState::Accepted"), body.find("preview_welcome(")
+        return 0 <= a < b and "return Err" in body[a:b]
+    boolean("acceptRefusesAccepted", refuses_accepted("accept_welcome") and refuses_accepted("decline_welcome"), "mdk-core welcomes.rs accept_welcome and decline_welcome return Err for a stored welcome that is already Accepted, before preview")
     boolean("welcomeProcessChecksHeldGroup", bool(re.search(r"GroupState\s*::\s*Active", pw_body.split("GroupState::Pending")[0])) , "mdk-core welcomes.rs process_welcome looks for an Active group of that id before writing (false = it does not)")
 
     # ---- emit -------------------------------------------------------------------------------
